@@ -48,7 +48,8 @@ Lemma unroot_cases b : wf_base b ->
   (unroot b = b) \/
   (wf_unrooted_base (unroot b) /\ rootpath (unroot b) = nosep b).
 Proof.
-  intro W. destruct (wb_rooted b W) as [segs Hp]. unfold unroot. rewrite Hp.
+  intro W. destruct (wb_rooted b W) as [segs Hp]. unfold unroot.
+  rewrite is_nil_nonempty, (nonempty_true _ (wb_host_ne b W)). cbn [negb]. rewrite Hp.
   destruct segs as [|s rest]; [left; reflexivity|]. destruct s as [|c s]; [left; reflexivity|].
   right. unfold from_parts.
   assert (E : rootpath {| u_scheme := u_scheme b; u_sep := false; u_user := u_user b; u_pass := u_pass b;
